@@ -519,6 +519,19 @@ func genLifecycle(r *Rng, idx int, tier string, step func(op string) string) {
 				}
 				do("obs")
 			}
+		case roll < 3 && l.dataBytes() > 0 && !gates["read"] && !gates["open"]:
+			// a requested verification is held by the read gate; the user stops the torrent meanwhile
+			do("gate kind=read on=1")
+			do("verify hold=1")
+			if ntrk > 0 {
+				do("waitstop")
+			}
+			do("stop hold=1")
+			if ntrk > 0 {
+				do("waitstop")
+			}
+			do("obs")
+			do("gate kind=read on=0")
 		case roll < 22:
 			do("start")
 		case roll < 40:
